@@ -414,8 +414,9 @@ Setting the 'atmosphere' through make_snowpack (and similar functions) or using 
                 next(iter(sensor))
             )  # take the config of the first, assume all are the same.
             # we should check that all the configurations are the same...
-            simulations = (prepare_recursive(se, sensor_configurations, sp) for se, sp in zip(sensor, snowpack))
-            simulations = list(itertools.chain(*simulations))  # flatten
+            simulations = [list(prepare_recursive(se, sensor_configurations, sp)) for se, sp in zip(sensor, snowpack)]
+            # flatten with the snowpack index varying fastest, as expected by the successive concatenations in run
+            simulations = [sims[k] for k in range(len(simulations[0])) for sims in simulations]
         else:
             # normal case
             sensor_configurations = get_sensor_configurations(sensor)
